@@ -21,12 +21,33 @@ def Expr.wf : Expr → Bool
   | .ifexp _ c t e => c.wf && (t.wf && e.wf)
   | .display _ es => wfList es
   | .comp _ _ _ => true
+  -- second version: a starred expression may only be an element of a display or a positional argument
+  | .starred _ _ => false
+  | .coll _ _ es => wfElts es
+  | .dict _ items => wfItems items
+  | .slice _ lo hi step => wfOpt lo && (wfOpt hi && wfOpt step)
+  | .callkw _ f args kws => f.wf && (wfElts args && wfKws kws)
+  | .fvalue _ e _ spec => e.wf && wfOpt spec
+  | .fstring _ parts => wfList parts
 def wfList : List Expr → Bool
   | [] => true
   | e :: rest => e.wf && wfList rest
 def wfCmp : List (CmpOp × Expr) → Bool
   | [] => true
   | (_, e) :: rest => e.wf && wfCmp rest
+def wfElts : List Expr → Bool
+  | [] => true
+  | .starred _ e :: rest => e.wf && wfElts rest
+  | e :: rest => e.wf && wfElts rest
+def wfItems : List (Option Expr × Expr) → Bool
+  | [] => true
+  | (k, e) :: rest => wfOpt k && (e.wf && wfItems rest)
+def wfKws : List (Option String × Expr) → Bool
+  | [] => true
+  | (_, e) :: rest => e.wf && wfKws rest
+def wfOpt : Option Expr → Bool
+  | none => true
+  | some e => e.wf
 end
 
 mutual
@@ -43,12 +64,70 @@ def outerIds : Expr → List Nat
   | .ifexp i c t e => i :: (outerIds c ++ outerIds t ++ outerIds e)
   | .display i es => i :: outerIdsList es
   | .comp i _ _ => [i]
+  | .starred i e => i :: outerIds e
+  | .coll i _ es => i :: outerIdsList es
+  | .dict i items => i :: outerIdsItems items
+  | .slice i lo hi step => i :: (outerIdsOpt lo ++ outerIdsOpt hi ++ outerIdsOpt step)
+  | .callkw i f args kws => i :: (outerIds f ++ outerIdsList args ++ outerIdsKws kws)
+  | .fvalue i e _ spec => i :: (outerIds e ++ outerIdsOpt spec)
+  | .fstring i parts => i :: outerIdsList parts
 def outerIdsList : List Expr → List Nat
   | [] => []
   | e :: rest => outerIds e ++ outerIdsList rest
 def outerIdsCmp : List (CmpOp × Expr) → List Nat
   | [] => []
   | (_, e) :: rest => outerIds e ++ outerIdsCmp rest
+def outerIdsItems : List (Option Expr × Expr) → List Nat
+  | [] => []
+  | (k, e) :: rest => outerIdsOpt k ++ outerIds e ++ outerIdsItems rest
+def outerIdsKws : List (Option String × Expr) → List Nat
+  | [] => []
+  | (_, e) :: rest => outerIds e ++ outerIdsKws rest
+def outerIdsOpt : Option Expr → List Nat
+  | none => []
+  | some e => outerIds e
+end
+
+mutual
+/-- `true` iff the visitor records the nodes of `e` (outside comprehension scopes) in the very order Python evaluates
+them: no dictionary item with a key (`k: v` - the visitor visits `v` first) and no formatted value with a format
+specification (the visitor visits the specification first).  The parts of a comprehension do not matter. -/
+def Expr.orderFaithful : Expr → Bool
+  | .const _ _ => true
+  | .name _ _ => true
+  | .attr _ e _ => e.orderFaithful
+  | .subscr _ e ix => e.orderFaithful && ix.orderFaithful
+  | .call _ f args => f.orderFaithful && orderFaithfulList args
+  | .unary _ _ e => e.orderFaithful
+  | .bin _ _ l r => l.orderFaithful && r.orderFaithful
+  | .boolop _ _ es => orderFaithfulList es
+  | .compare _ left rest => left.orderFaithful && orderFaithfulCmp rest
+  | .ifexp _ c t e => c.orderFaithful && (t.orderFaithful && e.orderFaithful)
+  | .display _ es => orderFaithfulList es
+  | .comp _ _ _ => true
+  | .starred _ e => e.orderFaithful
+  | .coll _ _ es => orderFaithfulList es
+  | .dict _ items => orderFaithfulItems items
+  | .slice _ lo hi step => orderFaithfulOpt lo && (orderFaithfulOpt hi && orderFaithfulOpt step)
+  | .callkw _ f args kws => f.orderFaithful && (orderFaithfulList args && orderFaithfulKws kws)
+  | .fvalue _ e _ spec => e.orderFaithful && spec.isNone
+  | .fstring _ parts => orderFaithfulList parts
+def orderFaithfulList : List Expr → Bool
+  | [] => true
+  | e :: rest => e.orderFaithful && orderFaithfulList rest
+def orderFaithfulCmp : List (CmpOp × Expr) → Bool
+  | [] => true
+  | (_, e) :: rest => e.orderFaithful && orderFaithfulCmp rest
+def orderFaithfulItems : List (Option Expr × Expr) → Bool
+  | [] => true
+  | (none, e) :: rest => e.orderFaithful && orderFaithfulItems rest
+  | (some _, _) :: _ => false
+def orderFaithfulKws : List (Option String × Expr) → Bool
+  | [] => true
+  | (_, e) :: rest => e.orderFaithful && orderFaithfulKws rest
+def orderFaithfulOpt : Option Expr → Bool
+  | none => true
+  | some e => e.orderFaithful
 end
 
 end Icontract.Ex
